@@ -15,9 +15,9 @@ def bus_types():
     return _TYPES
 
 
-def install(model, case):
+def install(model, case, reuse_streams=False):
     """stoch hooks + pub/sub bus with scripted listeners (subscribed in the generated order)"""
-    stoch.install(model, case["seeds"], with_stats=True)
+    stoch.install(model, case["seeds"], with_stats=True, reuse_streams=reuse_streams)
     base_construct = model.extra_construct
     base_action = model.extra_action
     bus = case["bus"]
@@ -43,7 +43,17 @@ def install(model, case):
                 m.bus.add_listener(types[ti % len(types)], m.listeners[li % len(m.listeners)])
 
     def action(m, a):
-        if a[0] == "fire":
+        if a[0] in ("unsub", "sub"):
+            types = bus_types()
+            if not m.listeners:
+                return
+            li, ti = a[1] % len(m.listeners), a[2] % len(types)
+            m.deliveries.append([a[0].upper(), ti, li])
+            if a[0] == "unsub":
+                m.bus.remove_listener(types[ti], m.listeners[li])
+            else:
+                m.bus.add_listener(types[ti], m.listeners[li])
+        elif a[0] == "fire":
             types = bus_types()
             ti = a[1] % len(types)
             m.deliveries.append(["FIRE", ti, None])
@@ -78,13 +88,19 @@ def prior_activity(n):
     return keep
 
 
-def run_program(case, drive):
-    """drive: ["plain"] | ["pause", k] | ["bounded", frac] | ["steps", k]  -> digest dict"""
+def run_program(case, drive, twice=False):
+    """drive: ["plain"] | ["pause", k] | ["bounded", frac] | ["steps", k]  -> digest dict.
+    twice: the same simulator, model and (re-seeded) stream objects first run an earlier replication to its end"""
+    from vlib.simharness import Recorder
     prog = case["prog"]
     h = Harness(prog)
-    install(h.model, case)
+    install(h.model, case, reuse_streams=twice)
     try:
         h.initialize()
+        if twice:
+            h.run_piece(["start"])
+            h.rec = Recorder()
+            h.initialize()
         if drive[0] == "pause":
             h.start_pause_after(drive[1], ["start"])
         elif drive[0] == "bounded":
